@@ -86,4 +86,157 @@ Proof.
   destruct (insert_htx s2 _ _) as [s3|?|?] eqn:E3; try (apply IH; exact Hn2).
   apply IH. unfold nonneg. erewrite bal_insert_htx; eauto.
 Qed.
+
+Lemma insert_stake_in x l y : In y (insert_stake x l) -> y = x \/ In y l.
+Proof.
+  induction l as [|z l IH]; cbn [insert_stake]; intros H.
+  - destruct H as [<-|[]]. left; reflexivity.
+  - destruct (stake_before x z).
+    + destruct H as [<-|H]; [left; reflexivity|right; exact H].
+    + destruct H as [<-|H]; [right; left; reflexivity|]. destruct (IH H) as [->|H']; [left; reflexivity|right; right; exact H'].
+Qed.
+Lemma sort_stakes_in l y : In y (sort_stakes l) -> In y l.
+Proof.
+  induction l as [|x l IH]; cbn [sort_stakes fold_right]; intros H; [exact H|].
+  apply insert_stake_in in H as [->|H]; [left; reflexivity|right; apply IH; exact H].
+Qed.
+Lemma index_from_in {A} (l : list A) : forall i p, In p (index_from i l) -> In (snd p) l.
+Proof.
+  induction l as [|x l IH]; intros i p H; cbn [index_from] in H; [exact H|].
+  destruct H as [<-|H]; [left; reflexivity|right; eapply IH; exact H].
+Qed.
+
+Lemma snapshot_payouts_nonneg h ts rates s s' :
+  nonneg s -> snapshot_payouts c h ts rates s = Ok s' -> nonneg s'.
+Proof.
+  intros Hn H. unfold snapshot_payouts in H. cbv zeta in H.
+  destruct (existsb _ _); [discriminate|]. destruct (existsb _ _); [discriminate|].
+  match type of H with match ?l with [] => _ | _ => _ end = _ => remember l as lst eqn:El end.
+  assert (Hpos : forall x, In x lst -> 0 <= snd x).
+  { intros x Hx. rewrite El in Hx. apply sort_stakes_in in Hx. apply filter_In in Hx as [_ Hx]. lia. }
+  clear El. destruct lst as [|x0 lst0] eqn:E0; [inversion H; subst; exact Hn|]. rewrite <- E0 in *. clear E0.
+  apply rbind_ok in H as (s2 & H1 & H). apply rbind_ok in H as (s3 & H2 & H3).
+  assert (Hn2 : nonneg s2) by (unfold nonneg; rewrite (bal_insert_hbatch _ _ _ H1); exact Hn).
+  assert (Hn3 : nonneg s3).
+  { refine (fold_res_inv nonneg _ _ _ s2 s3 Hn2 H2).
+    intros s0 p s4 Hn0 Hs. destruct (two63 <=? snd p); [discriminate|].
+    unfold nonneg. erewrite bal_insert_htx; [exact Hn0|exact Hs]. }
+  refine (fold_res_inv_in nonneg _ _ _ s3 s' Hn3 H3).
+  intros s0 p s4 Hin Hn0 Hs. eapply add_to_balance_nonneg; [exact Hn0| |exact Hs].
+  match type of Hin with In p (payouts ?b ?rs) => assert (F : Forall (fun r : txid * Z => 0 <= snd r) (payouts b rs)) end.
+  { apply payouts_nonneg. apply Forall_forall. intros r Hr. apply in_map_iff in Hr as (y & <- & Hy). cbn [snd].
+    apply Hpos. eapply index_from_in. exact Hy. }
+  rewrite Forall_forall in F. apply F; exact Hin.
+Qed.
+
+Lemma developers_payouts_nonneg h ts s s' :
+  nonneg s -> fst (developers_payouts c h ts s) = Ok s' -> nonneg s'.
+Proof.
+  unfold developers_payouts. cbv zeta.
+  pose proof dev_rewards_nonneg as T. rewrite forallb_forall in T. revert T.
+  generalize dev_rewards as l. intros l T Hn.
+  set (step := fun (acc : Z * Z * (res db * db)) (d : Z * Z * Z * Z) => _).
+  assert (G : forall l0 ij r reached, (forall d, In d l0 -> In d l) ->
+             (forall s0, r = Ok s0 -> nonneg s0) ->
+             forall s1, fst (snd (fold_left step l0 (ij, (r, reached)))) = Ok s1 -> nonneg s1).
+  { induction l0 as [|d l0 IH]; intros [i j] r reached Hsub Hr s1 H; cbn [fold_left snd fst] in H.
+    - apply Hr; exact H.
+    - assert (Hd : In d l) by (apply Hsub; left; reflexivity).
+      assert (Hsub' : forall d0, In d0 l0 -> In d0 l) by (intros; apply Hsub; right; assumption).
+      unfold step at 2 in H. destruct r as [s0|e|e].
+      + destruct d as [[[a bits] pre] post]. specialize (T _ Hd). cbv beta iota in T.
+        apply andb_prop in T as [T1 T2]. apply Z.leb_le in T1, T2.
+        assert (Hrew : 0 <= (if c_V202EnhanceActivation c <=? h then post else pre)) by (destruct (_ <=? h); assumption).
+        destruct (add_to_balance s0 a PTickerPEG _) as [s2|e|e] eqn:Ea;
+          try (eapply IH; [exact Hsub'| |exact H]; intros ? HH; discriminate).
+        assert (Hn2 : nonneg s2) by (eapply add_to_balance_nonneg; [apply Hr; reflexivity|exact Hrew|exact Ea]).
+        destruct (insert_hbatch s2 _) as [s3|e|e] eqn:Eb;
+          try (eapply IH; [exact Hsub'| |exact H]; intros ? HH; discriminate).
+        assert (Hn3 : nonneg s3) by (unfold nonneg; erewrite bal_insert_hbatch; [exact Hn2|exact Eb]).
+        destruct (insert_htx s3 _ _) as [s4|e|e] eqn:Ec;
+          try (eapply IH; [exact Hsub'| |exact H]; intros ? HH; discriminate).
+        eapply IH; [exact Hsub'| |exact H]. intros s5 HH; inversion HH; subst.
+        unfold nonneg. erewrite bal_insert_htx; [exact Hn3|exact Ec].
+      + eapply IH; [exact Hsub'| |exact H]. intros ? HH; discriminate.
+      + eapply IH; [exact Hsub'| |exact H]. intros ? HH; discriminate. }
+  intros H. eapply (G l (0, 1) (Ok s) s); [auto| |exact H]. intros s0 HH; inversion HH; subst; exact Hn.
+Qed.
+
+Ltac done_step H x Hx := apply obind_done in H as (x & Hx & H).
+
+Lemma sync_block_nonneg cm mem b s s' mem' :
+  nonneg cm -> nonneg s -> sync_block c cm mem b s = Done (s', mem') -> nonneg s'.
+Proof.
+  intros Hc Hn H. unfold sync_block in H. cbv zeta in H.
+  done_step H s1 H1. apply of_res_done in H1.
+  assert (Hn1 : nonneg s1).
+  { destruct (_ =? c_V204EnhanceActivation c); [exact (mint_tokens_nonneg _ _ Hn H1)|inversion H1; subst; exact Hn]. }
+  clear H1 Hn s. done_step H s2 H2. apply of_res_done in H2.
+  assert (Hn2 : nonneg s2).
+  { destruct (_ =? c_V204BurnMintedTokenActivation c); [exact (nullify_minted_nonneg _ _ _ Hc Hn1 H2)|inversion H2; subst; exact Hn1]. }
+  clear H2 Hn1 s1. done_step H graded Hg. done_step H gradedS HgS.
+  done_step H st Hst. destruct st as [[s3 is_rates] ended].
+  assert (Hn3 : nonneg s3).
+  { destruct (_ <? c_V20HeightActivation c).
+    - destruct graded as [v|]; [|inversion Hst; subst; exact Hn2].
+      done_step Hst s4 H4. apply of_res_done in H4.
+      assert (Hn4 : nonneg s4) by (unfold nonneg; rewrite (bal_insert_grade _ _ _ _ H4); exact Hn2).
+      destruct (v_winners v); [inversion Hst; subst; exact Hn4|].
+      done_step Hst s5 H5. apply of_res_done in H5. inversion Hst; subst.
+      unfold nonneg. rewrite (bal_insert_rates _ _ _ _ _ _ H5); exact Hn4.
+    - destruct (grade_spr_err c cm b); [discriminate|].
+      done_step Hst s4 H4.
+      assert (Hn4 : nonneg s4).
+      { destruct graded as [v|]; [apply of_res_done in H4; unfold nonneg; rewrite (bal_insert_grade _ _ _ _ H4); exact Hn2|inversion H4; subst; exact Hn2]. }
+      destruct (first_assets graded) as [|o0 o]; destruct (first_assets gradedS) as [|p0 p];
+        try (inversion Hst; subst; exact Hn4);
+        (destruct (select_rates c _ _ _); [|inversion Hst; subst; exact Hn4];
+         done_step Hst s5 H5; apply of_res_done in H5; inversion Hst; subst;
+         unfold nonneg; rewrite (bal_insert_rates _ _ _ _ _ _ H5); exact Hn4). }
+  clear Hst Hn2 s2. destruct ended; [inversion H; subst; exact Hn3|].
+  done_step H st2 Hst2. destruct st2 as [s4 mem4].
+  assert (Hn4 : nonneg s4).
+  { destruct (c_TransactionConversionActivation c <=? _); [|inversion Hst2; subst; exact Hn3].
+    done_step Hst2 st Hs. destruct st as [s5 rates1].
+    assert (Hn5 : nonneg s5).
+    { destruct ((c_V20HeightActivation c <=? _) && _); [|inversion Hs; subst; exact Hn3].
+      done_step Hs s6 H6. apply of_res_done in H6. inversion Hs; subst. exact (snapshot_payouts_nonneg _ _ _ _ _ Hn3 H6). }
+    done_step Hst2 st Hs2. destruct st as [s6 mem6].
+    assert (Hn6 : nonneg s6).
+    { destruct is_rates; [|inversion Hs2; subst; exact Hn5].
+      done_step Hs2 s7 H7. apply of_res_done in H7.
+      assert (Hn7 : nonneg s7).
+      { destruct ((c_V4OPRUpdate c <=? _) && _); [unfold nonneg; rewrite (bal_insert_bank _ _ _ _ H7); exact Hn5|inversion H7; subst; exact Hn5]. }
+      destruct (get_averages cm _ mem _) as [avgs mem'']. done_step Hs2 s8 H8. apply of_res_done in H8.
+      inversion Hs2; subst. exact (apply_holding_nonneg _ _ _ _ _ _ _ Hn7 H8). }
+    done_step Hst2 s7 H7. inversion Hst2; subst.
+    destruct (b_tx b); [apply of_res_done in H7; exact (apply_tx_block_nonneg _ _ _ _ _ Hn6 H7)|inversion H7; subst; exact Hn6]. }
+  clear Hst2 Hn3 s3. done_step H s5 H5.
+  assert (Hn5 : nonneg s5).
+  { destruct (_ <? c_V20HeightActivation c); [apply of_res_done in H5; exact (apply_factoid_block_nonneg _ _ _ _ Hn4 H5)|inversion H5; subst; exact Hn4]. }
+  done_step H s6 H6.
+  assert (Hn6 : nonneg s6).
+  { destruct graded; [apply of_res_done in H6; exact (pay_winners_nonneg _ _ _ _ Hn5 H6)|inversion H6; subst; exact Hn5]. }
+  done_step H s7 H7.
+  assert (Hn7 : nonneg s7).
+  { destruct (c_V20HeightActivation c <=? _); [|inversion H7; subst; exact Hn6].
+    destruct gradedS; [apply of_res_done in H7; exact (pay_winners_nonneg _ _ _ _ Hn6 H7)|inversion H7; subst; exact Hn6]. }
+  done_step H s8 H8. inversion H; subst.
+  destruct ((c_V20DevRewardsHeightActivation c <=? _) && _); [apply of_res_done in H8; exact (developers_payouts_nonneg _ _ _ _ Hn7 H8)|inversion H8; subst; exact Hn7].
+Qed.
+
+Lemma bal_insert_synced s h s' : insert_synced s h = Ok s' -> bal s' = bal s.
+Proof. unfold insert_synced. destruct (versions s !! h); [discriminate|]. intros H; inversion H; reflexivity. Qed.
+
+(* C03, first half: no block ever makes a balance negative *)
+Theorem step_block_nonneg cm mem b s' mem' :
+  nonneg cm -> step_block c cm mem b = Done (s', mem') -> nonneg s'.
+Proof.
+  intros Hc H. unfold step_block in H. cbv zeta in H.
+  done_step H r Hr. destruct r as [s1 mem1]. done_step H s2 H2. apply of_res_done in H2. inversion H; subst.
+  unfold nonneg. erewrite bal_insert_synced; [|exact H2].
+  eapply sync_block_nonneg; [exact Hc| |exact Hr].
+  destruct (_ =? c_V202EnhanceActivation c); destruct (_ =? c_V20DevRewardsHeightActivation c);
+    repeat apply nullify_burn_nonneg; assumption.
+Qed.
 End WithCfg.
